@@ -71,7 +71,7 @@ impl ByteCompiler<'_> {
 
         // Hoist loop-invariant constants from the condition (e.g. `10` in `i < 10`)
         // so the value is loaded into a register once, not on every iteration.
-        let hoisted = self.try_hoist_loop_condition(for_loop.condition());
+        let hoisted = self.try_hoist_loop_condition(for_loop.condition(), false);
 
         // Per-iteration binding copy: for `for (let i = ...)`, each iteration needs
         // a fresh binding per the spec (important for closures). When the scope requires
@@ -425,7 +425,7 @@ impl ByteCompiler<'_> {
         use_expr: bool,
     ) {
         // Hoist loop-invariant constants from the condition.
-        let hoisted = self.try_hoist_loop_condition(Some(while_loop.condition()));
+        let hoisted = self.try_hoist_loop_condition(Some(while_loop.condition()), false);
 
         let start_address = self.next_opcode_location();
         self.bytecode.emit_increment_loop_iteration();
@@ -452,7 +452,7 @@ impl ByteCompiler<'_> {
         use_expr: bool,
     ) {
         // Hoist loop-invariant constants from the condition.
-        let hoisted = self.try_hoist_loop_condition(Some(do_while_loop.cond()));
+        let hoisted = self.try_hoist_loop_condition(Some(do_while_loop.cond()), true);
 
         let initial_label = self.jump();
 
